@@ -155,7 +155,31 @@ Fixpoint scan_C05 (c : lcase) (tr : list (Z * Z)) (idx : Z) : bool :=
 Definition rethrows (c : lcase) : list Z := map arg (filter (fun e => tag e =? t_rt) (all_ev c)).
 Fixpoint nodup_z (l : list Z) : bool :=
   match l with [] => true | x :: r => negb (existsb (Z.eqb x) r) && nodup_z r end.
-Definition check_C05 (c : lcase) : bool := nodup_z (rethrows c) && scan_C05 c (i_trace c) 1.
+(* "the next wait that observes completion rethrows", on the implementation's log alone: a wait() that returns normally / a tryWait(k) that
+   returns true (for every k, 0 included) observed completion; if a capture of that set was complete (guard := Set store, site 16) before the
+   call's final outstanding load -- or, when the call performed no hooked load of its own, before the call -- and has not been consumed
+   (guard reset, site 20) by the time the call returns, the pending exception was NOT delivered by the call that had to deliver it. *)
+Fixpoint last_step_of (tr : list (Z * Z)) (t : Z) (pred : Z -> bool) (idx lo hi : Z) (acc : Z) : Z :=
+  match tr with
+  | [] => acc
+  | (t', cd) :: r => if hi <? idx then acc
+                     else last_step_of r t pred (idx + 1) lo hi (if (t' =? t) && (lo <=? idx) && pred cd then idx else acc)
+  end.
+Definition final_load_site (T : Z) (cd : Z) : bool :=
+  (cd mod 64 =? T) && let i := cd / 64 in ((i =? 33) || (i =? 35) || (i =? 38) || (i =? 41)).
+Definition pending_at_return (c : lcase) (t : Z) (w : Z * Z * Z * Z * Z) : bool :=
+  let '(T, cstamp, kind, r, wstamp) := w in
+  let normal := (kind =? t_w) || ((kind =? t_tw) && (r =? 1)) in
+  let obs := Z.max (cstamp + 1) (last_step_of (i_trace c) t (final_load_site T) 1 cstamp wstamp 0) in
+  let ls := last_site (i_trace c) (sc 16 (Z.to_nat T)) 1 obs 0 in
+  let lr := last_site (i_trace c) (sc 20 (Z.to_nat T)) 1 (wstamp + 1) 0 in
+  normal && (0 <? ls) && (lr <? ls).
+Fixpoint check_pending (c : lcase) (l : list (list ev)) (t : Z) : bool :=
+  match l with
+  | [] => true
+  | evs :: r => negb (existsb (pending_at_return c t) (waits_of evs [])) && check_pending c r (t + 1)
+  end.
+Definition check_C05 (c : lcase) : bool := nodup_z (rethrows c) && scan_C05 c (i_trace c) 1 && check_pending c (i_res c) 0.
 
 (* C47 on the implementation's log: with numThreads >= 1 the functor of a ForceQueuingTag submission does not run on the calling
    thread before the scheduling call returns (a body event of that task earlier in the same thread's log) *)
